@@ -25,3 +25,15 @@ Definition quorum_case (stakes : list N) (q_cons q_mem : N) (s_cons s_mem : list
                b2n (forallb2 N.eqb model_stakes s_mem);
                (* monitor on the implementation's own numbers: the C17 inequalities *)
                b2n ((2 * total <? 3 * q_cons) && (q_cons + faults total =? total)) ].
+
+(* ---- C09: LeaderElector. keys in insertion order (byte lists), rounds, observed leaders ---- *)
+From HS Require Import LeaderDefs.
+Fixpoint bytes_eqb (a b : list N) : bool :=
+  match a, b with [], [] => true | x :: xs, y :: ys => (x =? y) && bytes_eqb xs ys | _, _ => false end.
+Definition leader_case (keys : list (list N)) (rounds : list N) (leaders : list (list N)) : list N :=
+  let n := length keys in
+  verdict_of [ b2n (forallb2 bytes_eqb (map (leader keys) rounds) leaders);
+               (* monitor on the implementation's own answers: every leader is a member, and among the first n
+                  (consecutive) rounds every member leads exactly once *)
+               b2n (forallb (fun l => existsb (bytes_eqb l) keys) leaders);
+               b2n (forallb (fun k => Nat.eqb (length (filter (bytes_eqb k) (firstn n leaders))) 1) keys) ].
